@@ -214,6 +214,11 @@ def configs(files, mp, pat_size):
     for p in dict.fromkeys(raw):
         yield ("regex-raw", {"exclude_external_libraries": False, "regex_external_exclusions": (p,)}, True,
                (lambda s, q=p: re.match(q, s) is not None))
+    # every pattern of a tuple stands for itself: groups and back references are local to their pattern
+    g1, g2 = r"(x)\.y.*", r"(\w+)(os)\.\2$"
+    for pair in ((g1, g2), (g2, g1)):
+        yield ("regex-raw", {"exclude_external_libraries": False, "regex_external_exclusions": pair}, True,
+               (lambda s, c=pair: any(re.match(q, s) for q in c)))
 
 
 def run_shard(shard, tier, seed):
